@@ -124,7 +124,11 @@ impl<'a> CapVisitor for RunHist<'a> {
             obs.max_fill = obs.max_fill.max(m.v.len());
             obs.ops += 1;
             // equality and Debug depend only on the visible contents: compare with a freshly built buffer
-            if i % 3 == 0 || i + 1 == self.ops.len() {
+            let failed_op = match op {
+                BOp::Push(_) | BOp::Extend(_) => m.v == before && !matches!(op, BOp::Extend(s) if s.is_empty()),
+                _ => false,
+            };
+            if i % 3 == 0 || i + 1 == self.ops.len() || failed_op {
                 // collecting through iterators with exact, loose and unknown size hints
                 // (upper bound of the hint exceeds the capacity although at most N bytes are yielded)
                 let junk = self.cap.map(|c| (c + 1).min(300)).unwrap_or(3);
@@ -138,6 +142,31 @@ impl<'a> CapVisitor for RunHist<'a> {
                 .collect();
                 if &loose[..] != &m.v[..] || &unknown[..] != &m.v[..] {
                     return Err(Fail::new("from_iter", format!("collect of {} bytes (loose / unknown size hint) yields exactly them: {}", m.v.len(), hex(&m.v)), format!("{} / {}", hex(&loose[..]), hex(&unknown[..]))));
+                }
+                // a source that is not fused: after its first None it would yield more bytes; collecting must stop at
+                // the first None and must not consume anything behind it
+                {
+                    let polls = std::cell::Cell::new(0usize);
+                    let n = m.v.len();
+                    let nf: B = std::iter::from_fn(|| {
+                        let p = polls.get();
+                        polls.set(p + 1);
+                        if p < n {
+                            Some(vv[p])
+                        } else if p == n {
+                            None
+                        } else {
+                            Some(0xEE)
+                        }
+                    })
+                    .collect();
+                    if &nf[..] != &m.v[..] || polls.get() != n + 1 {
+                        return Err(Fail::new(
+                            "from_iter",
+                            format!("collect stops at the source's first None: {} bytes, {} polls", n, n + 1),
+                            format!("{} bytes ({}), {} polls", nf.len(), hex(&nf[..]), polls.get()),
+                        ));
+                    }
                 }
                 let fresh: B = m.v.iter().copied().collect();
                 if &fresh[..] != &m.v[..] {
@@ -311,7 +340,8 @@ pub fn run(ctx: &mut Ctx) {
                     };
                     BOp::Extend(ctx.rng.bytes(l))
                 }
-                7 | 8 => BOp::Truncate(ctx.rng.range(0, cap + 2)),
+                7 => BOp::Truncate(ctx.rng.range(0, cap + 2)),
+                8 => BOp::Truncate(*ctx.rng.pick(&[0usize, 1, 255, 256, 257, 65535, 65536, 65537, 65539, 1 << 24, (1 << 32) + 1, usize::MAX - 1, usize::MAX])),
                 _ => BOp::Clear,
             });
         }
@@ -345,6 +375,21 @@ pub fn run(ctx: &mut Ctx) {
         ];
         ctx.eval(&Hist { buf: BufKind::Arr(cap), ops });
         ctx.bump("floor:fill-beyond-2^16");
+    }
+    // failing extends with long slices (several hundred bytes) at every room size around 256 / 512
+    for (i, &cap) in MENU.iter().enumerate() {
+        if cap < 257 || cap > 8193 || !ctx.mine(i as u64 + 1) {
+            continue;
+        }
+        for room in [1usize, 255, 256, 257, 299, 511, 512, 513] {
+            if room >= cap {
+                continue;
+            }
+            let pre: Vec<u8> = (0..cap - room).map(|j| (j as u8) | 0x80).collect();
+            let big: Vec<u8> = (0..room + 1 + (room % 7)).map(|j| (j as u8) & 0x7f).collect();
+            let ops = vec![BOp::Extend(pre), BOp::Extend(big.clone()), BOp::Truncate(1 << 20), BOp::Extend(big[..room].to_vec()), BOp::Push(1)];
+            ctx.eval(&Hist { buf: BufKind::Arr(cap), ops });
+        }
     }
     // stale-byte test: fill, truncate, compare (part of every history through the fresh-buffer comparison)
     for (i, &cap) in MENU.iter().enumerate() {
